@@ -4,10 +4,10 @@ import GqlVerif.Model.Cli
 
 * `cli_options_map`: every flag reaches the library option it documents, unchanged, for all flag
   values; an unparsable deprecation strategy is the default; the visibility table.
-* `dest_path`, `dest_path_trailing`, `stem_spec`, `dest_file_name`: the destination is
-  `<output dir or directory of the query file>/<stem of the query file name>.rs`, over all path
-  strings of the modelled grammar (`/`-separated, any number of dots, hidden files, no extension,
-  trailing `/` and `/.`).
+* `dest_path`, `dest_path_beside`, `dest_path_trailing`, `stem_spec`, `dest_file_name`: the
+  destination is `<output dir or directory of the query file>/<stem of the query file name>.rs`,
+  over all path strings of the modelled grammar (`/`-separated, any number of dots, hidden files, no
+  extension, `..ext`, trailing `/` and `/.`).
 * `output_is_header_then_lib`: the file holds the warning-suppression line, a newline and the
   library's tokens (through rustfmt unless `--no-formatting`); nothing else is written.
 * `gen_error_no_file`: whenever the command does not succeed — generation error, library panic,
@@ -160,6 +160,9 @@ def dirSlash (d : List Char) : List Char :=
   | none => []
   | some c => if c = '/' then d else d ++ ['/']
 
+/-- a directory written without anything `Path` would drop at its end (`/`, `/.`) -/
+def CleanDir (d : List Char) : Prop := d ≠ [] ∧ d.getLast? ≠ some '/' ∧ skipTrail d.reverse = d.reverse
+
 theorem takeWhile_append_stop (p : Char → Bool) (l r : List Char) (hl : ∀ c ∈ l, p c = true)
     (hr : ∀ x, r.head? = some x → p x = false) :
     (l ++ r).takeWhile p = l ∧ (l ++ r).dropWhile p = r := by
@@ -235,8 +238,17 @@ theorem fileName_normal (pre name : List Char) (hp : DirPrefix pre) (hn : Normal
   rw [lastComponentRev_normal pre name hp hn]
   simp [hn.1, hn.2.2.1, hn.2.2.2]
 
+theorem pathJoin_dirSlash (d name : List Char) : pathJoin d name = dirSlash d ++ name ∧ DirPrefix (dirSlash d) := by
+  unfold pathJoin dirSlash DirPrefix
+  cases h : d.getLast? with
+  | none => simp
+  | some c =>
+    by_cases hc : c = '/'
+    · simp [hc, h]
+    · simp [hc]
+
 /-- **the stem**: a name without a dot, or whose only dot is the first character, is its own stem;
-otherwise the stem is what precedes the **last** dot (`a.b.graphql` ↦ `a.b`). -/
+otherwise the stem is what precedes the **last** dot (`a.b.graphql` ↦ `a.b`, `q.` ↦ `q`, `..graphql` ↦ `.`). -/
 theorem stem_spec (n : List Char) (hn : n ≠ ['.', '.']) :
     ('.' ∉ n → fileStem n = n) ∧
     (∀ before after, n = before ++ '.' :: after → '.' ∉ after →
@@ -260,7 +272,11 @@ theorem stem_spec (n : List Char) (hn : n ≠ ['.', '.']) :
 example : fileStem "a.b.graphql".toList = "a.b".toList := by decide +kernel
 example : fileStem ".graphql".toList = ".graphql".toList := by decide +kernel
 example : fileStem "noext".toList = "noext".toList := by decide +kernel
+example : fileStem "q.".toList = "q".toList := by decide +kernel
+example : fileStem "..graphql".toList = ".".toList := by decide +kernel
 
+/-- every split of a name at a dot that is followed by no further dot is the split at the last dot:
+the two clauses of `stem_spec` cover every name -/
 theorem exists_last_dot (n : List Char) (h : '.' ∈ n) :
     ∃ before after, n = before ++ '.' :: after ∧ '.' ∉ after := by
   induction n with
@@ -275,126 +291,71 @@ theorem exists_last_dot (n : List Char) (h : '.' ∈ n) :
         | tail _ h' => exact absurd h' hcs
       exact ⟨[], cs, by simp [hc], hcs⟩
 
-/-- `Path::extension`: what follows the last dot, unless there is no dot or only a leading one -/
-theorem ext_spec (n : List Char) (hn : n ≠ ['.', '.']) :
-    ('.' ∉ n → extensionOf n = none) ∧
-    (∀ before after, n = before ++ '.' :: after → '.' ∉ after →
-        extensionOf n = if before = [] then none else some after) := by
-  constructor
-  · intro h; simp [extensionOf, hn, h]
-  · intro before after heq hafter
-    have hmem : '.' ∈ n := by rw [heq]; simp
-    unfold extensionOf
-    simp only [hn, ↓reduceIte, hmem]
-    have hrev : n.reverse = after.reverse ++ ('.' :: before.reverse) := by rw [heq]; simp
-    have hall : ∀ c ∈ after.reverse, (fun x : Char => decide (x ≠ '.')) c = true := by
-      intro c hc
-      have : c ∈ after := by simpa using hc
-      have : c ≠ '.' := fun h => hafter (h ▸ this)
-      simpa using this
-    have := takeWhile_append_stop _ after.reverse ('.' :: before.reverse) hall (by simp)
-    rw [hrev, this.1, this.2]
-    simp
-
-theorem setExtensionRs_normal (pre name : List Char) (hp : DirPrefix pre) (hn : Normal name) :
-    setExtensionRs (pre ++ name) = pre ++ fileStem name ++ rsExt := by
-  unfold setExtensionRs
-  rw [fileName_normal pre name hp hn, lastComponentRev_normal pre name hp hn]
-  simp
-
-/-- the one shape of file name on which `with_extension` does not give `<stem>.rs`: `..` followed by a
-dot-less extension (cutting the extension leaves `..`, which is no file name) -/
-def NoQuirk (name : List Char) : Prop := ∀ ext, name = '.' :: '.' :: ext → '.' ∈ ext
-
-theorem withExtensionRs_normal (pre name : List Char) (hp : DirPrefix pre) (hn : Normal name) (hq : NoQuirk name) :
-    withExtensionRs (pre ++ name) = pre ++ fileStem name ++ rsExt := by
-  unfold withExtensionRs
-  rw [fileName_normal pre name hp hn]
-  simp only [Option.bind]
-  by_cases hdot : '.' ∈ name
-  · obtain ⟨before, after, heq, hafter⟩ := exists_last_dot name hdot
-    have hext := (ext_spec name hn.2.2.2).2 before after heq hafter
-    by_cases hb : before = []
-    · rw [hext, if_pos hb]; exact setExtensionRs_normal pre name hp hn
-    · rw [hext, if_neg hb]
-      simp only []
-      have htake : (pre ++ name).take ((pre ++ name).length - after.length) = pre ++ (before ++ ['.']) := by
-        have h1 : pre ++ name = (pre ++ (before ++ ['.'])) ++ after := by rw [heq]; simp
-        rw [h1]
-        apply List.take_left'
-        simp; omega
-      rw [htake]
-      have hn' : Normal (before ++ ['.']) := by
-        refine ⟨by simp, ?_, ?_, ?_⟩
-        · intro h
-          simp only [List.mem_append, List.mem_singleton] at h
-          cases h with
-          | inl h => exact hn.2.1 (by rw [heq]; simp [h])
-          | inr h => exact absurd h (by decide)
-        · intro h
-          cases before with
-          | nil => exact hb rfl
-          | cons x xs => simp at h
-        · intro h
-          cases before with
-          | nil => exact hb rfl
-          | cons x xs =>
-            cases xs with
-            | nil =>
-              simp at h
-              have := hq after (by rw [heq, h]; rfl)
-              exact hafter this
-            | cons y ys => simp at h
-      rw [setExtensionRs_normal pre _ hp hn']
-      have h1 := (stem_spec (before ++ ['.']) hn'.2.2.2).2 before [] (by simp) (by simp)
-      have h2 := (stem_spec name hn.2.2.2).2 before after heq hafter
-      rw [h1, h2, if_neg hb, if_neg hb]
-  · rw [(ext_spec name hn.2.2.2).1 hdot]
-    exact setExtensionRs_normal pre name hp hn
-
-theorem pathJoin_dirSlash (d name : List Char) : pathJoin d name = dirSlash d ++ name ∧ DirPrefix (dirSlash d) := by
-  unfold pathJoin dirSlash DirPrefix
-  cases h : d.getLast? with
-  | none => simp
-  | some c =>
-    by_cases hc : c = '/'
-    · simp [hc, h]
-    · simp [hc]
+theorem parentOf_normal (pre name : List Char) (hp : DirPrefix pre) (hn : Normal name) :
+    parentOf (pre ++ name) =
+      if skipTrail pre.reverse = [] ∧ pre.reverse.getLast? = some '/' then ['/'] else (skipTrail pre.reverse).reverse := by
+  unfold parentOf
+  rw [lastComponentRev_normal pre name hp hn]
 
 /-- **destination path.**  For every query path `pre ++ name` (`name` a normal file name, `pre` empty
-or ending in `/`; `name` not of the shape `..ext`, see `dotdot_ext_quirk`): the query's file name is
-`name`; without `-o` the code goes to `pre ++ stem(name) ++ ".rs"` — beside the query file —, with
-`-o d` to `d/ ++ stem(name) ++ ".rs"`. -/
-theorem dest_path (pre name : List Char) (hp : DirPrefix pre) (hn : Normal name) (hq : NoQuirk name) :
+or ending in `/`): the query's file name is `name`; the code goes to the file `stem(name).rs` inside
+the query file's parent directory, or inside `d` with `-o d`. -/
+theorem dest_path (pre name : List Char) (hp : DirPrefix pre) (hn : Normal name) :
     fileName (pre ++ name) = some name ∧
-    destPath none (pre ++ name) = some (pre ++ fileStem name ++ rsExt) ∧
+    destPath none (pre ++ name) = some (dirSlash (parentOf (pre ++ name)) ++ fileStem name ++ rsExt) ∧
     ∀ d, destPath (some d) (pre ++ name) = some (dirSlash d ++ fileStem name ++ rsExt) := by
   refine ⟨fileName_normal pre name hp hn, ?_, ?_⟩
-  · unfold destPath
-    rw [fileName_normal pre name hp hn, withExtensionRs_normal pre name hp hn hq]
+  · unfold destPath withFileName
+    rw [fileName_normal pre name hp hn]
+    simp only []
+    rw [(pathJoin_dirSlash _ _).1, List.append_assoc]
   · intro d
     unfold destPath
     rw [fileName_normal pre name hp hn]
     simp only []
-    rw [(pathJoin_dirSlash d name).1, withExtensionRs_normal _ name (pathJoin_dirSlash d name).2 hn hq]
+    rw [(pathJoin_dirSlash _ _).1, List.append_assoc]
+
+/-- **beside the query file**, as strings: `name` ↦ `stem.rs`, `/name` ↦ `/stem.rs`,
+`dir/name` ↦ `dir/stem.rs` for every directory text `dir` that does not end in `/` or `/.` -/
+theorem dest_path_beside (name : List Char) (hn : Normal name) :
+    destPath none name = some (fileStem name ++ rsExt) ∧
+    destPath none ('/' :: name) = some ('/' :: (fileStem name ++ rsExt)) ∧
+    ∀ dir, CleanDir dir → destPath none (dir ++ '/' :: name) = some (dir ++ '/' :: (fileStem name ++ rsExt)) := by
+  refine ⟨?_, ?_, ?_⟩
+  · have h := (dest_path [] name (Or.inl rfl) hn).2.1
+    have hpar := parentOf_normal [] name (Or.inl rfl) hn
+    simp only [List.nil_append] at h hpar
+    rw [h, hpar]
+    simp [skipTrail, dirSlash]
+  · have hp : DirPrefix ['/'] := Or.inr rfl
+    have h := (dest_path ['/'] name hp hn).2.1
+    have hpar := parentOf_normal ['/'] name hp hn
+    simp only [List.cons_append, List.nil_append] at h hpar
+    rw [h, hpar]
+    simp [skipTrail_slash, skipTrail, dirSlash]
+  · intro dir ⟨hne, hlast, hclean⟩
+    have hp : DirPrefix (dir ++ ['/']) := Or.inr (by simp)
+    have h := (dest_path (dir ++ ['/']) name hp hn).2.1
+    have hpar := parentOf_normal (dir ++ ['/']) name hp hn
+    simp only [List.append_assoc, List.cons_append, List.nil_append] at h hpar
+    rw [h, hpar]
+    simp only [List.reverse_append, List.reverse_cons, List.reverse_nil, List.nil_append, List.cons_append,
+      skipTrail_slash, hclean]
+    have hrne : dir.reverse ≠ [] := by simpa using hne
+    simp only [hrne, false_and, ↓reduceIte, List.reverse_reverse]
+    unfold dirSlash
+    cases hl : dir.getLast? with
+    | none => simp at hl; exact absurd hl hne
+    | some c =>
+      have hc : c ≠ '/' := fun hcs => hlast (by rw [hl, hcs])
+      simp [hc]
 
 example : Normal "a.b.graphql".toList := by unfold Normal; decide +kernel
-example : NoQuirk "..hidden.graphql".toList := by
-  intro ext h
-  have : ext = ['h', 'i', 'd', 'd', 'e', 'n', '.', 'g', 'r', 'a', 'p', 'h', 'q', 'l'] := by
-    have h' : "..hidden.graphql".toList = ['.', '.', 'h', 'i', 'd', 'd', 'e', 'n', '.', 'g', 'r', 'a', 'p', 'h', 'q', 'l'] := by decide +kernel
-    rw [h'] at h
-    simpa using h.symm
-  rw [this]; decide
-
-/-- **the excluded shape is really different** (and the harness replays it on the binary): for a query
-file named `..graphql` the destination is `q/..` — a directory — not `q/..rs`. -/
-theorem dotdot_ext_quirk :
-    destPath none ['q', '/', '.', '.', 'g', 'r', 'a', 'p', 'h', 'q', 'l'] = some ['q', '/', '.', '.'] ∧
-    fileStem ['.', '.', 'g', 'r', 'a', 'p', 'h', 'q', 'l'] = ['.'] := by decide +kernel
 example : DirPrefix "q/sub/".toList := by unfold DirPrefix; decide +kernel
+example : CleanDir "./q/sub dir".toList := by unfold CleanDir; decide +kernel
 example : destPath (some "out".toList) "q/a.b.graphql".toList = some "out/a.b.rs".toList := by decide +kernel
 example : destPath none "q/.graphql".toList = some "q/.graphql.rs".toList := by decide +kernel
+example : destPath none "q//..graphql".toList = some "q/..rs".toList := by decide +kernel
 
 /-- without a file name (``""``, `/`, `.`, a path ending in `..`) there is no destination -/
 theorem dest_path_none (d : Option (List Char)) (q : List Char) : destPath d q = none ↔ fileName q = none := by
@@ -409,11 +370,9 @@ inductive Trail : List Char → Prop where
   | slash {t} : Trail t → Trail (t ++ ['/'])
   | slashDot {t} : Trail t → Trail (t ++ ['/', '.'])
 
-/-- trailing separators and `.` components do not change the file name, hence not the destination
-under `-o` (for the default placement nothing is claimed here: such a query path cannot be opened as
-a file; the model is compared with `std::path` on such strings by the harness) -/
+/-- trailing separators and `.` components change neither the file name nor the destination -/
 theorem dest_path_trailing (p t : List Char) (ht : Trail t) :
-    fileName (p ++ t) = fileName p ∧ ∀ dir, destPath (some dir) (p ++ t) = destPath (some dir) p := by
+    fileName (p ++ t) = fileName p ∧ ∀ d, destPath d (p ++ t) = destPath d p := by
   have hskip : skipTrail (p ++ t).reverse = skipTrail p.reverse := by
     induction ht with
     | nil => simp
@@ -429,9 +388,9 @@ theorem dest_path_trailing (p t : List Char) (ht : Trail t) :
     unfold lastComponentRev; rw [hskip]
   have hfn : fileName (p ++ t) = fileName p := by unfold fileName; rw [hlc]
   refine ⟨hfn, ?_⟩
-  intro dir
-  unfold destPath
-  rw [hfn]
+  intro d
+  unfold destPath withFileName parentOf
+  rw [hfn, hlc]
 
 example : Trail "/.//".toList :=
   Trail.slash (t := "/./".toList) (Trail.slash (t := "/.".toList) (Trail.slashDot (t := []) Trail.nil))
@@ -451,8 +410,7 @@ theorem mem_fileStem (n : List Char) (c : Char) (h : c ∈ fileStem n) : c ∈ n
     · exact h
 
 /-- the file that is written is itself named `<stem>.rs` (round trip through `file_name`) -/
-theorem dest_file_name (pre name : List Char) (hp : DirPrefix pre) (hn : Normal name) (hq : NoQuirk name)
-    (d : Option (List Char)) :
+theorem dest_file_name (pre name : List Char) (hp : DirPrefix pre) (hn : Normal name) (d : Option (List Char)) :
     ∃ p, destPath d (pre ++ name) = some p ∧ fileName p = some (fileStem name ++ rsExt) := by
   have hn' : Normal (fileStem name ++ rsExt) := by
     refine ⟨by simp [rsExt], ?_, ?_, ?_⟩
@@ -463,11 +421,45 @@ theorem dest_file_name (pre name : List Char) (hp : DirPrefix pre) (hn : Normal 
       | inr h => simp [rsExt] at h
     · intro h; have := congrArg List.length h; simp [rsExt] at this
     · intro h; have := congrArg List.length h; simp [rsExt] at this
-  obtain ⟨_, h1, h2⟩ := dest_path pre name hp hn hq
+  obtain ⟨_, h1, h2⟩ := dest_path pre name hp hn
   cases d with
-  | none => exact ⟨_, h1, by rw [List.append_assoc]; exact fileName_normal _ _ hp hn'⟩
+  | none => exact ⟨_, h1, by rw [List.append_assoc]; exact fileName_normal _ _ (pathJoin_dirSlash _ name).2 hn'⟩
   | some dir =>
     exact ⟨_, h2 dir, by rw [List.append_assoc]; exact fileName_normal _ _ (pathJoin_dirSlash dir name).2 hn'⟩
+
+/-! ### for the record: the former rule, `Path::with_extension("rs")`
+
+Until the repair `generate derives the output file name from the query file's stem` the destination
+was `query_path.with_extension("rs")` (resp. `dir.join(name).with_extension("rs")`).  std implements
+`with_extension` by copying the path *without the bytes of the old extension* (the dot stays) and
+then calling `set_extension`; for a file name `..ext` the copy is `..`, which has no file name, and
+the result is the directory `..`.  The harness stream `dotdot-name` replays these names on the binary. -/
+
+def extensionOf (n : List Char) : Option (List Char) :=
+  if n = ['.', '.'] then none
+  else if '.' ∈ n then
+    let before := ((n.reverse.dropWhile (· ≠ '.')).drop 1).reverse
+    if before = [] then none else some (n.reverse.takeWhile (· ≠ '.')).reverse
+  else none
+
+def setExtensionRs (p : List Char) : List Char :=
+  match fileName p with
+  | none => p
+  | some n => (lastComponentRev p).2.reverse ++ fileStem n ++ rsExt
+
+def withExtensionRs (p : List Char) : List Char :=
+  match (fileName p).bind extensionOf with
+  | none => setExtensionRs p
+  | some ext => setExtensionRs (p.take (p.length - ext.length))
+
+/-- the former rule sent `q/..graphql` to the directory `q/..`; the present one to `q/..rs`;
+on ordinary names the two agree -/
+theorem old_with_extension_quirk :
+    withExtensionRs ['q', '/', '.', '.', 'g', 'r', 'a', 'p', 'h', 'q', 'l'] = ['q', '/', '.', '.'] ∧
+    destPath none ['q', '/', '.', '.', 'g', 'r', 'a', 'p', 'h', 'q', 'l'] = some ['q', '/', '.', '.', 'r', 's'] ∧
+    withExtensionRs ['q', '/', 'a', '.', 'b', '.', 'g', 'q', 'l'] = ['q', '/', 'a', '.', 'b', '.', 'r', 's'] ∧
+    destPath none ['q', '/', 'a', '.', 'b', '.', 'g', 'q', 'l'] = some ['q', '/', 'a', '.', 'b', '.', 'r', 's'] := by
+  decide +kernel
 
 /-! ## what is written, and when nothing is -/
 
